@@ -1,8 +1,161 @@
 (* Properties_C02.v — property C02: Table behaves as a finite map whatever the hashing does.
-   Only statements closed by `exact`, each followed by Print Assumptions. *)
-From CelloV Require Import Generated RobinHood TableModel TableProofs.
+   Only statements closed by `exact`, each followed by Print Assumptions.
+
+   Reading aid.  K, V: key and value types; keq: decidable key equality (reflects =);
+   hash: ANY function K -> N (collisions, wrap-around and rehash orders are all covered by the
+   quantification over hash and over histories).
+     T_empty / T_step / T_run : the executable model of src/Table.c (TableModel.v) with the prime
+       table, the load factor and the displacement rule re-extracted from the C source (Generated.v).
+     spec_step / spec_run / a_get : the finite map (association list, last set wins, rem deletes).
+     t_inv  : the table invariant (table_inv_meaning spells it out).
+     R t m  : table t holds exactly the bindings of map m (table_R_meaning).
+     out    : OUnit | OVal v | OBool b | ORaise e | OCrash | OFuel; the map never returns the last two,
+              so equal outcomes mean: no crash, no fuel exhaustion (all loops terminate).        *)
+From Coq Require Import List Arith NArith ZArith Permutation.
+From CelloV Require Import Generated RobinHood RobinHoodProofs TableModel TableProofs.
+Import ListNotations.
 
 Theorem table_ideal_size_gt : forall n : nat,
   n < ideal_size table_primes table_load_num table_load_den n.
 Proof. exact TableProofs.ideal_gt. Qed.
 Print Assumptions table_ideal_size_gt.
+
+(* what the invariant says: robin-hood ordering (walking forward, the probe distance grows by at
+   most one; an empty slot counts 0), stored home = hash k mod nslots < nslots, no key twice,
+   nitems = number of occupied slots, and a free slot exists (or there is no slot array at all) *)
+Theorem table_inv_meaning : forall (K V : Type) (hash : K -> N) (t : table K V),
+  t_inv K V hash t <->
+  ((RHL (entry K V) (slots K V t) /\
+    WF K (entry K V) fst (fun k => home K hash k (nslots K V t)) (slots K V t) /\
+    UQ K (entry K V) fst (slots K V t)) /\
+   nitems K V t = occupied (entry K V) (slots K V t)) /\
+  (nitems K V t < nslots K V t \/ nslots K V t = 0).
+Proof. exact TableProofs.t_inv_unfold. Qed.
+Print Assumptions table_inv_meaning.
+
+Theorem table_R_meaning : forall (K V : Type) (t : table K V) (m : amap K V),
+  R K V t m <-> NoDup (map fst m) /\ forall e, In e (t_iter K V t) <-> In e m.
+Proof. exact TableProofs.R_unfold. Qed.
+Print Assumptions table_R_meaning.
+
+(* 1. the invariant holds initially ... *)
+Theorem table_inv_empty : forall (K V : Type) (hash : K -> N), t_inv K V hash (T_empty K V).
+Proof. exact TableProofs.T_inv_empty. Qed.
+Print Assumptions table_inv_empty.
+
+(* ... and 2. every operation (set, rem, get, mem, resize, self-copy) keeps it, keeps the table in
+   step with the map, and returns what the map returns *)
+Theorem table_step_refines : forall (K V : Type) (keq : K -> K -> bool) (hash : K -> N),
+  (forall a b, keq a b = true <-> a = b) ->
+  forall (t : table K V) (m : amap K V) (o : op K V),
+  t_inv K V hash t -> R K V t m ->
+  t_inv K V hash (fst (T_step K V keq hash t o)) /\
+  R K V (fst (T_step K V keq hash t o)) (fst (spec_step K V keq m o)) /\
+  snd (T_step K V keq hash t o) = snd (spec_step K V keq m o).
+Proof. exact TableProofs.T_step_refines. Qed.
+Print Assumptions table_step_refines.
+
+(* fuel adequacy = termination of every loop of Table.c's model, and no division by zero *)
+Theorem table_step_total : forall (K V : Type) (keq : K -> K -> bool) (hash : K -> N),
+  (forall a b, keq a b = true <-> a = b) ->
+  forall (t : table K V) (o : op K V), t_inv K V hash t ->
+  snd (T_step K V keq hash t o) <> OFuel V /\ snd (T_step K V keq hash t o) <> OCrash V.
+Proof. exact TableProofs.T_step_total. Qed.
+Print Assumptions table_step_total.
+
+(* 3. every history, every hash function *)
+Theorem table_refines_map : forall (K V : Type) (keq : K -> K -> bool) (hash : K -> N),
+  (forall a b, keq a b = true <-> a = b) ->
+  forall (ops : list (op K V)) (o : op K V),
+  let t := T_run K V keq hash ops in
+  let m := spec_run K V keq ops [] in
+  t_inv K V hash t /\ R K V t m /\ snd (T_step K V keq hash t o) = snd (spec_step K V keq m o).
+Proof. exact TableProofs.T_refines_map. Qed.
+Print Assumptions table_refines_map.
+
+(* len = number of bindings; iteration yields every bound key exactly once (with its value) *)
+Theorem table_len_iter : forall (K V : Type) (keq : K -> K -> bool) (hash : K -> N),
+  (forall a b, keq a b = true <-> a = b) ->
+  forall (ops : list (op K V)),
+  let t := T_run K V keq hash ops in
+  let m := spec_run K V keq ops [] in
+  t_len K V t = length m /\
+  NoDup (map fst (t_iter K V t)) /\
+  Permutation (t_iter K V t) m /\
+  (forall k, In k (map fst (t_iter K V t)) <-> a_get K V keq m k <> None).
+Proof. exact TableProofs.T_len_iter. Qed.
+Print Assumptions table_len_iter.
+
+Theorem table_get_mem : forall (K V : Type) (keq : K -> K -> bool) (hash : K -> N),
+  (forall a b, keq a b = true <-> a = b) ->
+  forall (ops : list (op K V)) (k : K),
+  let t := T_run K V keq hash ops in
+  let m := spec_run K V keq ops [] in
+  snd (T_step K V keq hash t (TGet K V k)) =
+    match a_get K V keq m k with Some v => OVal V v | None => ORaise V KeyError end /\
+  snd (T_step K V keq hash t (TMem K V k)) =
+    OBool V (match a_get K V keq m k with Some _ => true | None => false end).
+Proof. exact TableProofs.T_get_mem. Qed.
+Print Assumptions table_get_mem.
+
+(* get or rem of an absent key raises KeyError and changes nothing *)
+Theorem table_absent_keyerror : forall (K V : Type) (keq : K -> K -> bool) (hash : K -> N),
+  (forall a b, keq a b = true <-> a = b) ->
+  forall (ops : list (op K V)) (k : K),
+  let t := T_run K V keq hash ops in
+  let m := spec_run K V keq ops [] in
+  a_get K V keq m k = None ->
+  T_step K V keq hash t (TGet K V k) = (t, ORaise V KeyError) /\
+  T_step K V keq hash t (TRem K V k) = (t, ORaise V KeyError).
+Proof. exact TableProofs.T_absent_keyerror. Qed.
+Print Assumptions table_absent_keyerror.
+
+(* an emptied table (resize 0) keeps working: it then behaves as a new table on what follows *)
+Theorem table_emptied_keeps_working : forall (K V : Type) (keq : K -> K -> bool) (hash : K -> N),
+  (forall a b, keq a b = true <-> a = b) ->
+  forall (ops ops' : list (op K V)) (o : op K V),
+  let t := T_run K V keq hash (ops ++ TResize K V 0 :: ops') in
+  let m := spec_run K V keq ops' [] in
+  t_inv K V hash t /\ R K V t m /\ snd (T_step K V keq hash t o) = snd (spec_step K V keq m o).
+Proof. exact TableProofs.T_emptied_keeps_working. Qed.
+Print Assumptions table_emptied_keeps_working.
+
+(* Table_New with initial pairs (later pairs win) and Table_Assign from another Table *)
+Theorem table_new_refines : forall (K V : Type) (keq : K -> K -> bool) (hash : K -> N),
+  (forall a b, keq a b = true <-> a = b) ->
+  forall (kvs : list (entry K V)),
+  exists t, t_new K V keq hash table_swap table_primes table_load_num table_load_den kvs = Some t /\
+    t_inv K V hash t /\
+    R K V t (fold_left (fun m kv => a_set K V keq m (fst kv) (snd kv)) kvs []).
+Proof. exact TableProofs.T_new_refines. Qed.
+Print Assumptions table_new_refines.
+
+Theorem table_assign_refines : forall (K V : Type) (keq : K -> K -> bool) (hash : K -> N),
+  (forall a b, keq a b = true <-> a = b) ->
+  forall (src : table K V) (m : amap K V), t_inv K V hash src -> R K V src m ->
+  exists t', t_assign_from K V keq hash table_swap table_primes table_load_num table_load_den src = Some t' /\
+    t_inv K V hash t' /\ R K V t' m.
+Proof. exact TableProofs.T_assign_refines. Qed.
+Print Assumptions table_assign_refines.
+
+(* 4. the rule of the pinned source, `if (j >= p)`, does NOT refine the map (defect D1, repaired) *)
+Theorem table_nonstrict_refuted :
+  exists (hash : Z -> N) (ops : list (op Z Z)),
+    let t := t_run Z Z Z.eqb hash (fun j p => p <=? j) table_primes table_load_num table_load_den ops (T_empty Z Z) in
+    let m := spec_run Z Z Z.eqb ops [] in
+    t_len Z Z t = 3 /\ length m = 2 /\
+    map fst (t_iter Z Z t) = [55; 110; 55]%Z /\ map fst m = [55; 110]%Z.
+Proof. exact TableProofs.T_nonstrict_refuted. Qed.
+Print Assumptions table_nonstrict_refuted.
+
+(* non-vacuity of the hypotheses `t_inv t`, `R t m` and `keq reflects =`: a table reached by a history
+   in which three keys have the last of five slots as home, two of them wrapped around *)
+Example table_inv_nonvacuous :
+  exists (t : table Z Z) (m : amap Z Z),
+    t_inv Z Z Z.to_N t /\ R Z Z t m /\
+    slots Z Z t = [Some (4, (9, 2)%Z); Some (4, (14, 3)%Z); None; Some (3, (3, 4)%Z); Some (4, (4, 1)%Z)] /\
+    m = [(3, 4); (14, 3); (9, 2); (4, 1)]%Z.
+Proof. exact TableProofs.T_inv_nonvacuous. Qed.
+
+Example table_refines_map_Z :=
+  table_refines_map Z Z Z.eqb Z.to_N Z.eqb_eq.
